@@ -698,8 +698,14 @@ func handleReferences[P topLevelEntryProto, S topLevelEntryStruct](r *RIB, niRIB
 }
 
 func (r *RIB) handleNHGReferences(niRIB *RIBHolder, original *aft.Afts_NextHopGroup, new *aftpb.Afts_NextHopGroup) {
-	// Increment all the new references.
+	// Increment all the new references. The next-hops within a NHG are a keyed list,
+	// so an index that is repeated in the input is a single reference.
+	seen := map[uint64]bool{}
 	for _, nh := range new.NextHop {
+		if seen[nh.GetIndex()] {
+			continue
+		}
+		seen[nh.GetIndex()] = true
 		niRIB.incNHRefCount(nh.GetIndex())
 	}
 
